@@ -1,10 +1,13 @@
-// harness binary of group "costs" (stub: replaced by the group's modes)
+// harness binary of group "costs": modes costs (total-cost tables next to the
+// delta lists they are computed from) and arith (rust_decimal validation)
 #[path = "hcommon.rs"]
 mod hcommon;
+mod arith;
+mod costs_mode;
 #[allow(dead_code)]
 mod util;
 pub use hcommon::guarded;
 
 fn main() {
-    hcommon::run_main(&[]);
+    hcommon::run_main(&[("costs", costs_mode::handle), ("arith", arith::handle)]);
 }
